@@ -138,6 +138,15 @@ _add("C10", H("H10_after"))
 _add("C02", H("H10_after"))
 _add("C01", H("H10_after"))
 
+# doc-value chunk data above 128 bytes (an incompressible 200-byte term): the doc-value block decoded by the
+# independent layout decoder, and round trips
+_add("C09", H("H09_layout", quick={"wall": "140s", "shards": 8, "param": "maxDocs=1,longTerm=1"}, thorough={"wall": "1500s", "shards": 16, "param": "maxDocs=2,longTerm=1"}))
+_add("C04", H("H04_persist", quick={"wall": "140s", "shards": 8, "param": "maxDocs=1,longTerm=1"}, thorough={"skip": True}))
+_add("C03", H("H04_persist", quick={"wall": "140s", "shards": 8, "param": "maxDocs=1,longTerm=1"}, thorough={"skip": True}))
+# one field name used both as a text field with doc values and as a thesaurus (two sections of one field)
+_add("C04", H("H12_syn", quick={"wall": "140s", "shards": 8, "param": "maxSyn=1,dual=1"}, thorough={"wall": "1500s", "shards": 16, "param": "maxSyn=2,dual=1"}))
+_add("C12", H("H12_syn", quick={"wall": "140s", "shards": 8, "param": "maxSyn=1,dual=1"}, thorough={"skip": True}))
+
 # thorough wall budgets: the first budgeted run of a property gets 600 s, the others 240 s (a thorough check
 # also repeats the quick configurations, which are exhaustive inside their bounds)
 for _pid in PLAN:
